@@ -211,7 +211,9 @@ PROPS["C16"] = {
     "verus": ["ioqueue"],
     "technique": "Verus: representation invariant + abstract byte-sequence view on the extracted IOQueue methods (unbounded)",
     "level_text": "Deductive proof (Verus/Z3) of len() == |bytes()|, write appends, consume/consume_with/read drop exactly the first k bytes, "
-                  "flush keeps bytes, clear_but_last keeps a prefix of the chunk list that still contains the front chunk (nothing of a chunk in flight is dropped) with len() recomputed, for all queue states and all operation histories (by the invariant). "
+                  "the frame structure (frame = flush-delimited chunk): write never starts a new chunk (it only creates the very first one) and leaves every chunk but the last untouched; flush keeps bytes and existing chunks and opens at most one empty chunk after them; "
+                  "consume/consume_with remove the front chunk exactly when its rest is consumed completely (an empty front chunk cannot block the ones behind it) and keep it otherwise; "
+                  "clear_but_last keeps a prefix of the chunk list that still contains the front chunk (nothing of a chunk in flight is dropped) with len() recomputed, for all queue states and all operation histories (by the invariant). "
                   "The tty write loop in unix.rs is assumed, not proved.",
     "level_note": "Trusts Verus/Z3, the listed std specifications and the extractor's logged normalisations; unix.rs poll loop, OS and frame convention assumed.",
     "assumptions": [
